@@ -367,7 +367,9 @@ pub fn run(tier: Tier, rep: &mut Report) {
             }
         }
     }
-    for n in [1usize, 2] {
+    // repeated: which of the node's activities reaches X first depends on std's per-instance hash keys inside
+    // btdht (not owned by the harness), so one execution exposes a fault in this path only with some probability
+    for n in [1usize, 2, 1, 2, 1, 2, 1, 2, 1, 2, 1, 2] {
         let (sc, peers) = build_two_searches_x(n, 40, seed, true);
         let res = sim::run(&sc, peers, &mut sim::DefaultChooser);
         rep.add("e1_wire_events", res.wire.len() as u64);
